@@ -47,6 +47,14 @@ thread_local! {
     static NEST: std::cell::Cell<(usize, usize)> = std::cell::Cell::new((0, 0));
 }
 
+thread_local! {
+    /// round 7: the trait method every recorder double was entered through, in call order (this thread)
+    static METHODS: RefCell<Vec<&'static str>> = RefCell::new(Vec::new());
+}
+/// emissions whose recorder was entered through another method than the one the API form calls (a blanket impl
+/// `&T` / `Box<T>` / `Arc<T>` forwarding to the wrong method); drained into the child's verdicts
+static WRONG_METHOD: Mutex<Vec<String>> = Mutex::new(Vec::new());
+
 const DOUBLE_PANIC: &str = "c02: recorder double panics inside the call";
 
 /// what a recorder double does, on request, from inside a call into it: emit again / panic
@@ -75,7 +83,8 @@ fn reset_counters() {
         CALLS[i].store(0, Ordering::SeqCst);
     }
 }
-fn hit(id: usize, intact: bool) {
+fn hit(id: usize, intact: bool, method: &'static str) {
+    METHODS.with(|m| m.borrow_mut().push(method));
     CALLS[id % NREC].fetch_add(1, Ordering::SeqCst);
     SEEN.with(|s| s.borrow_mut().push(if intact { format!("some{}", id) } else { "some9999".to_string() }));
     react();
@@ -94,30 +103,36 @@ fn take_seen() -> String {
 trait Probe {
     fn pid(&self) -> usize;
     fn intact(&self) -> bool;
+    /// round 7: address of the recorder OBJECT where handing the value around does not move it (heap / static
+    /// referent); 0 = the value itself is moved (sized by-value shapes). A rejected installation must hand back THE
+    /// object, not an equal one built anew.
+    fn addr(&self) -> usize {
+        0
+    }
 }
 
 macro_rules! impl_recorder_double {
     ($ty:ty) => {
         impl Recorder for $ty {
             fn describe_counter(&self, _: KeyName, _: Option<Unit>, _: SharedString) {
-                hit(self.pid(), self.intact());
+                hit(self.pid(), self.intact(), "describe_counter");
             }
             fn describe_gauge(&self, _: KeyName, _: Option<Unit>, _: SharedString) {
-                hit(self.pid(), self.intact());
+                hit(self.pid(), self.intact(), "describe_gauge");
             }
             fn describe_histogram(&self, _: KeyName, _: Option<Unit>, _: SharedString) {
-                hit(self.pid(), self.intact());
+                hit(self.pid(), self.intact(), "describe_histogram");
             }
             fn register_counter(&self, _: &Key, _: &Metadata<'_>) -> Counter {
-                hit(self.pid(), self.intact());
+                hit(self.pid(), self.intact(), "register_counter");
                 Counter::noop()
             }
             fn register_gauge(&self, _: &Key, _: &Metadata<'_>) -> Gauge {
-                hit(self.pid(), self.intact());
+                hit(self.pid(), self.intact(), "register_gauge");
                 Gauge::noop()
             }
             fn register_histogram(&self, _: &Key, _: &Metadata<'_>) -> Histogram {
-                hit(self.pid(), self.intact());
+                hit(self.pid(), self.intact(), "register_histogram");
                 Histogram::noop()
             }
         }
@@ -201,24 +216,24 @@ impl<const N: usize> Probe for Zst<N> {
 }
 impl<const N: usize> Recorder for Zst<N> {
     fn describe_counter(&self, _: KeyName, _: Option<Unit>, _: SharedString) {
-        hit(N, true);
+        hit(N, true, "describe_counter");
     }
     fn describe_gauge(&self, _: KeyName, _: Option<Unit>, _: SharedString) {
-        hit(N, true);
+        hit(N, true, "describe_gauge");
     }
     fn describe_histogram(&self, _: KeyName, _: Option<Unit>, _: SharedString) {
-        hit(N, true);
+        hit(N, true, "describe_histogram");
     }
     fn register_counter(&self, _: &Key, _: &Metadata<'_>) -> Counter {
-        hit(N, true);
+        hit(N, true, "register_counter");
         Counter::noop()
     }
     fn register_gauge(&self, _: &Key, _: &Metadata<'_>) -> Gauge {
-        hit(N, true);
+        hit(N, true, "register_gauge");
         Gauge::noop()
     }
     fn register_histogram(&self, _: &Key, _: &Metadata<'_>) -> Histogram {
-        hit(N, true);
+        hit(N, true, "register_histogram");
         Histogram::noop()
     }
 }
@@ -234,6 +249,21 @@ impl Probe for Box<dyn DynRec> {
     fn intact(&self) -> bool {
         (**self).intact()
     }
+    fn addr(&self) -> usize {
+        &**self as *const dyn DynRec as *const u8 as usize
+    }
+}
+/// round 7: a recorder handed in BY REFERENCE (`&'static T`, blanket impl `impl Recorder for &T`)
+impl Probe for &'static Rec {
+    fn pid(&self) -> usize {
+        (**self).pid()
+    }
+    fn intact(&self) -> bool {
+        (**self).intact()
+    }
+    fn addr(&self) -> usize {
+        *self as *const Rec as usize
+    }
 }
 impl Probe for Arc<Rec> {
     fn pid(&self) -> usize {
@@ -243,6 +273,9 @@ impl Probe for Arc<Rec> {
         // handed back intact also means: nobody kept a clone of the Arc
         (**self).intact() && Arc::strong_count(self) == 1
     }
+    fn addr(&self) -> usize {
+        Arc::as_ptr(self) as usize
+    }
 }
 
 /// local recorder double (for emissions under `with_local_recorder`)
@@ -251,35 +284,36 @@ struct LRec {
 }
 impl Recorder for LRec {
     fn describe_counter(&self, _: KeyName, _: Option<Unit>, _: SharedString) {
-        self.seen()
+        self.seen("describe_counter")
     }
     fn describe_gauge(&self, _: KeyName, _: Option<Unit>, _: SharedString) {
-        self.seen()
+        self.seen("describe_gauge")
     }
     fn describe_histogram(&self, _: KeyName, _: Option<Unit>, _: SharedString) {
-        self.seen()
+        self.seen("describe_histogram")
     }
     fn register_counter(&self, _: &Key, _: &Metadata<'_>) -> Counter {
-        self.seen();
+        self.seen("register_counter");
         Counter::noop()
     }
     fn register_gauge(&self, _: &Key, _: &Metadata<'_>) -> Gauge {
-        self.seen();
+        self.seen("register_gauge");
         Gauge::noop()
     }
     fn register_histogram(&self, _: &Key, _: &Metadata<'_>) -> Histogram {
-        self.seen();
+        self.seen("register_histogram");
         Histogram::noop()
     }
 }
 impl LRec {
-    fn seen(&self) {
+    fn seen(&self, method: &'static str) {
+        METHODS.with(|m| m.borrow_mut().push(method));
         SEEN.with(|s| s.borrow_mut().push(format!("local{}", self.id)));
         react();
     }
 }
 
-const NKINDS: usize = 5;
+const NKINDS: usize = 6;
 fn kind_of(id: usize, salt: usize) -> usize {
     let k = (id + salt) % NKINDS;
     if k == 2 && !(1..=12).contains(&id) {
@@ -289,11 +323,11 @@ fn kind_of(id: usize, salt: usize) -> usize {
     }
 }
 fn kind_name(k: usize) -> &'static str {
-    ["sized", "box-dyn", "zst", "over-aligned", "arc"][k]
+    ["sized", "box-dyn", "zst", "over-aligned", "arc", "static-ref"][k]
 }
 
 /// what the caller does with a rejected installation: result string (`err<id>`; anything else is a defect)
-fn look_at_rejection<R: Probe>(e: SetRecorderError<R>, id: usize, how: usize) -> String {
+fn look_at_rejection<R: Probe>(e: SetRecorderError<R>, id: usize, how: usize, addr: usize) -> String {
     // the error's own Display/Debug must not need the recorder
     let shown = format!("{} / {:?}", e, e);
     if !shown.contains("already initialized") {
@@ -308,7 +342,13 @@ fn look_at_rejection<R: Probe>(e: SetRecorderError<R>, id: usize, how: usize) ->
             return format!("err{}", id);
         }
     };
-    let s = if !back.intact() { format!("err{}!damaged", back.pid()) } else { format!("err{}", back.pid()) };
+    let s = if !back.intact() {
+        format!("err{}!damaged", back.pid())
+    } else if back.addr() != addr {
+        format!("err{}!another-object", back.pid())
+    } else {
+        format!("err{}", back.pid())
+    };
     drop(back);
     s
 }
@@ -332,12 +372,25 @@ macro_rules! with_zst {
     };
 }
 
+/// round 7: the caller owns a leaked recorder and installs a REFERENCE to it; when the installation is rejected the
+/// reference comes back and the caller frees its recorder itself (that is the one drop the oracles expect)
+fn by_static_ref(id: usize, install: impl FnOnce(&'static Rec) -> String) -> String {
+    let leaked: &'static Rec = Box::leak(Box::new(Rec::new(id)));
+    let s = install(leaked);
+    if s != "ok" {
+        // SAFETY: `leaked` came from `Box::leak` above; a rejected installation must not keep the reference.
+        unsafe { drop(Box::from_raw(leaked as *const Rec as *mut Rec)) };
+    }
+    s
+}
+
 /// one installation on a private cell
 fn cell_install(cell: &metrics::verif::RecorderCell, id: usize, salt: usize) -> String {
     fn go<R: Recorder + Probe + 'static>(cell: &metrics::verif::RecorderCell, r: R, id: usize, how: usize) -> String {
+        let addr = r.addr();
         match cell.set(r) {
             Ok(()) => "ok".to_string(),
-            Err(e) => look_at_rejection(e, id, how),
+            Err(e) => look_at_rejection(e, id, how, addr),
         }
     }
     let how = id / 2 + salt;
@@ -349,6 +402,7 @@ fn cell_install(cell: &metrics::verif::RecorderCell, id: usize, salt: usize) -> 
         }
         2 => with_zst!(id, |z| go(cell, z, id, how)),
         3 => go(cell, Big::new(id), id, how),
+        5 => by_static_ref(id, |r| go(cell, r, id, how)),
         _ => go(cell, Arc::new(Rec::new(id)), id, how),
     }
 }
@@ -356,9 +410,12 @@ fn cell_install(cell: &metrics::verif::RecorderCell, id: usize, salt: usize) -> 
 /// one installation on the real global cell
 fn global_install(id: usize, salt: usize) -> String {
     fn go<R: Recorder + Probe + Sync + 'static>(r: R, id: usize, how: usize) -> String {
-        match metrics::set_global_recorder(r) {
+        let addr = r.addr();
+        // round 7: only what the LIBRARY allocates inside the call is tracked (the recorder was built outside);
+        // counting is on in the child processes only (`alloc::install` in `child`), a pass-through elsewhere
+        match crate::alloc::track(|| metrics::set_global_recorder(r)) {
             Ok(()) => "ok".to_string(),
-            Err(e) => look_at_rejection(e, id, how),
+            Err(e) => look_at_rejection(e, id, how, addr),
         }
     }
     let how = id / 2 + salt;
@@ -370,6 +427,7 @@ fn global_install(id: usize, salt: usize) -> String {
         }
         2 => with_zst!(id, |z| go(z, id, how)),
         3 => go(Big::new(id), id, how),
+        5 => by_static_ref(id, |r| go(r, id, how)),
         _ => go(Arc::new(Rec::new(id)), id, how),
     }
 }
@@ -544,7 +602,7 @@ fn oracle(out: &mut Out, progs: &[Vec<Call>], o: &Outcome) {
 }
 
 fn gen_progs(r: &mut Rng) -> Vec<Vec<Call>> {
-    let n = r.range(2, 4);
+    let n = if r.chance(1, 4) { r.range(5, 6) } else { r.range(2, 4) };
     let mut next_id = 1;
     let mut progs = vec![];
     for t in 0..n {
@@ -595,6 +653,37 @@ enum GCall {
     EmitIn(usize),
     /// emission (form `f`) inside `with_local_recorder(local id, ..)` whose recorder panics; caught OUTSIDE the scope
     EmitLocalPanic(usize, usize),
+    /// round 7: `with_recorder(|r| { r.describe_counter(..); set_global_recorder(recorder id); <emission form f> })` —
+    /// an installation made from INSIDE a dispatched call (the closure also runs on the no-op recorder)
+    InstallIn(usize, usize),
+    /// round 7: `with_local_recorder(local l, || { set_global_recorder(recorder id); <emission form f> })`
+    InstallLocal(usize, usize, usize),
+    /// round 7: `{ let _g = set_default_local_recorder(local l); <emission form f> }` (the guard API)
+    EmitGuard(usize, usize),
+    /// round 7: the thread SPAWNS a fresh OS thread in the middle of the race and joins it; the new thread emits
+    /// (form f) — it takes the parent's scheduler slot, so its lookup is interleaved step by step like any other
+    EmitSpawn(usize),
+    /// round 7: (directly after `EmitSpawn`) the spawned thread emits once more (form f) from a THREAD-LOCAL
+    /// DESTRUCTOR while it exits; anywhere else: a plain emission
+    EmitExit(usize),
+}
+
+thread_local! {
+    /// armed in a spawned thread: emits from its destructor at thread exit and files the event in the slot
+    static EXIT_EMIT: ExitEmitter = ExitEmitter(std::cell::Cell::new(None));
+}
+struct ExitEmitter(std::cell::Cell<Option<(usize, Arc<Mutex<Option<Ev>>>)>>);
+impl Drop for ExitEmitter {
+    fn drop(&mut self) {
+        if let Some((f, slot)) = self.0.take() {
+            let _ = take_seen();
+            let start = tick();
+            emit(f);
+            let result = take_seen();
+            let end = tick();
+            *slot.lock().unwrap() = Some(Ev { start, end, result });
+        }
+    }
 }
 
 /// runs `f`, catching the doubles' own panic (anything else is re-raised); true = it panicked
@@ -618,6 +707,17 @@ fn form_name(f: usize) -> &'static str {
 }
 /// one emission through the public API; every form calls exactly one method of the recorder in scope
 fn emit(form: usize) {
+    let n0 = METHODS.with(|m| m.borrow().len());
+    emit_raw(form);
+    // the first double entered after `n0` is the one this emission was dispatched to (nested ones come later)
+    let expected = ["describe_counter", "register_counter", "register_gauge", "register_histogram", "describe_gauge", "register_counter"][form % NFORMS];
+    if let Some(m) = METHODS.with(|m| m.borrow().get(n0).copied()) {
+        if m != expected {
+            WRONG_METHOD.lock().unwrap().push(format!("{} entered the recorder through {} (expected {})", form_name(form), m, expected));
+        }
+    }
+}
+fn emit_raw(form: usize) {
     match form % NFORMS {
         0 => metrics::with_recorder(|r| {
             r.describe_counter(KeyName::from_const_str("c02.probe"), None, SharedString::const_str(""))
@@ -649,6 +749,17 @@ fn gprog_tok(p: &[GCall], for_model: bool) -> String {
             (GCall::EmitIn(f), false) => format!("i{}", f),
             (GCall::EmitLocalPanic(l, _), true) => format!("y{}", l),
             (GCall::EmitLocalPanic(l, f), false) => format!("y{}f{}", l, f),
+            (GCall::InstallIn(r, _), true) => format!("w{}", r),
+            (GCall::InstallIn(r, f), false) => format!("w{}f{}", r, f),
+            (GCall::InstallLocal(l, r, _), true) => format!("v{}r{}", l, r),
+            (GCall::InstallLocal(l, r, f), false) => format!("v{}r{}f{}", l, r, f),
+            // the guard API is the scope API without the closure: same model call
+            (GCall::EmitGuard(l, _), true) => format!("x{}", l),
+            (GCall::EmitGuard(l, f), false) => format!("g{}f{}", l, f),
+            // a lookup on a thread started during the race / from a thread-local destructor is a lookup
+            (GCall::EmitSpawn(_), true) | (GCall::EmitExit(_), true) => "e".to_string(),
+            (GCall::EmitSpawn(f), false) => format!("t{}", f),
+            (GCall::EmitExit(f), false) => format!("z{}", f),
         })
         .collect::<Vec<_>>()
         .join("+")
@@ -685,6 +796,21 @@ fn parse_gprogs(s: &str) -> Vec<Vec<GCall>> {
                             let (l, f) = rest.split_once('f').unwrap();
                             GCall::EmitLocalPanic(l.parse().unwrap(), f.parse().unwrap())
                         }
+                        "w" => {
+                            let (r, f) = rest.split_once('f').unwrap();
+                            GCall::InstallIn(r.parse().unwrap(), f.parse().unwrap())
+                        }
+                        "v" => {
+                            let (l, rf) = rest.split_once('r').unwrap();
+                            let (r, f) = rf.split_once('f').unwrap();
+                            GCall::InstallLocal(l.parse().unwrap(), r.parse().unwrap(), f.parse().unwrap())
+                        }
+                        "g" => {
+                            let (l, f) = rest.split_once('f').unwrap();
+                            GCall::EmitGuard(l.parse().unwrap(), f.parse().unwrap())
+                        }
+                        "t" => GCall::EmitSpawn(rest.parse().unwrap()),
+                        "z" => GCall::EmitExit(rest.parse().unwrap()),
                         _ => panic!("bad child spec {}", c),
                     }
                 })
@@ -703,6 +829,29 @@ fn global_shape(c: &GCall) -> Option<(usize, bool)> {
         GCall::EmitPanic(_) => Some((1, true)),
         GCall::EmitNested(k, _) => Some((k + 1, false)),
         GCall::EmitIn(_) => Some((2, false)),
+        GCall::InstallIn(..) => Some((2, false)),
+        GCall::EmitSpawn(_) | GCall::EmitExit(_) => Some((1, false)),
+        _ => None,
+    }
+}
+
+/// the part of a call's result that belongs to its emissions without a local recorder (`InstallIn` answers
+/// `<outer>&<installation>&<inner>`: the middle token is the installation's)
+fn emission_part(c: &GCall, result: &str) -> String {
+    if let GCall::InstallIn(..) = c {
+        let p: Vec<&str> = result.split('&').collect();
+        if p.len() == 3 {
+            return format!("{}&{}", p[0], p[2]);
+        }
+    }
+    result.to_string()
+}
+/// (recorder id, what the installation answered) for the calls that install
+fn install_part(c: &GCall, result: &str) -> Option<(usize, String)> {
+    match c {
+        GCall::Install(id) => Some((*id, result.to_string())),
+        GCall::InstallIn(id, _) => Some((*id, result.split('&').nth(1).unwrap_or("<missing>").to_string())),
+        GCall::InstallLocal(_, id, _) => Some((*id, result.split('&').next().unwrap_or("<missing>").to_string())),
         _ => None,
     }
 }
@@ -723,6 +872,10 @@ fn child(spec: &str) {
         if parts[1] == "-" { vec![] } else { parts[1].split('.').map(|x| x.parse().unwrap()).collect() };
     let salt: usize = parts[2].parse().unwrap();
     let mut fails: Vec<(String, String)> = vec![];
+    // round 7: from here on the allocations made INSIDE `set_global_recorder` calls are counted (tracking allocator of
+    // the harness): a rejected installation must not leave a heap slot behind, the winner leaves exactly one
+    crate::alloc::install();
+    crate::alloc::start();
     // the doubles' ordered panics are part of the input: keep them off stderr, leave every other panic loud
     let default_hook = std::panic::take_hook();
     std::panic::set_hook(Box::new(move |info| {
@@ -739,7 +892,14 @@ fn child(spec: &str) {
         let prog = prog.clone();
         let events = events.clone();
         bodies.push(Box::new(move || {
-            for c in prog {
+            let mut pending_exit: Option<Ev> = None;
+            for (ci, c) in prog.iter().copied().enumerate() {
+                if let (GCall::EmitExit(_), Some(ev)) = (c, pending_exit.take()) {
+                    // already made by the spawned thread's thread-local destructor while the parent was in `join`
+                    events.lock().unwrap()[t].push(ev);
+                    continue;
+                }
+                let mut spawned_ticks: Option<(usize, usize)> = None;
                 // harness-level yield point between two API calls of a thread: the thread can be held here
                 // for as long as the schedule likes whatever the library does (or no longer does) inside
                 // the call. The grant does thread-local work only, so it is elided from the model's schedule.
@@ -792,8 +952,85 @@ fn child(spec: &str) {
                         PANIC_NEXT.with(|p| p.set(false));
                         format!("{}{}", take_seen(), if panicked { "!" } else { "" })
                     }
+                    GCall::InstallIn(id, f) => {
+                        metrics::with_recorder(|r| {
+                            let before = SEEN.with(|s| s.borrow().len());
+                            r.describe_counter(KeyName::from_const_str("c02.outer"), None, SharedString::const_str(""));
+                            if SEEN.with(|s| s.borrow().len()) == before {
+                                SEEN.with(|s| s.borrow_mut().push("none".to_string()));
+                            }
+                            let inst = global_install(id, salt);
+                            SEEN.with(|s| s.borrow_mut().push(inst));
+                            let before = SEEN.with(|s| s.borrow().len());
+                            emit(f);
+                            if SEEN.with(|s| s.borrow().len()) == before {
+                                SEEN.with(|s| s.borrow_mut().push("none".to_string()));
+                            }
+                        });
+                        take_seen()
+                    }
+                    GCall::InstallLocal(l, id, f) => {
+                        let lrec = LRec { id: l };
+                        metrics::with_local_recorder(&lrec, || {
+                            let inst = global_install(id, salt);
+                            SEEN.with(|s| s.borrow_mut().push(inst));
+                            let before = SEEN.with(|s| s.borrow().len());
+                            emit(f);
+                            if SEEN.with(|s| s.borrow().len()) == before {
+                                SEEN.with(|s| s.borrow_mut().push("none".to_string()));
+                            }
+                        });
+                        take_seen()
+                    }
+                    GCall::EmitGuard(l, f) => {
+                        let lrec = LRec { id: l };
+                        {
+                            let _guard = metrics::set_default_local_recorder(&lrec);
+                            emit(f);
+                        }
+                        take_seen()
+                    }
+                    GCall::EmitSpawn(f) => {
+                        let me = sched::current();
+                        let exit_form = match prog.get(ci + 1) {
+                            Some(GCall::EmitExit(f2)) => Some(*f2),
+                            _ => None,
+                        };
+                        let slot: Arc<Mutex<Option<Ev>>> = Arc::new(Mutex::new(None));
+                        let slot2 = slot.clone();
+                        let joined = std::thread::spawn(move || {
+                            // the new thread runs in the parent's scheduler slot (the parent is inside `join`)
+                            sched::adopt(me);
+                            let _ = take_seen();
+                            let s0 = tick();
+                            emit(f);
+                            let r = take_seen();
+                            let e0 = tick();
+                            // armed LAST: thread-local destructors run in reverse order of registration, so the
+                            // scheduler identity and the emission log of this thread are still alive in it
+                            if let Some(f2) = exit_form {
+                                EXIT_EMIT.with(|e| e.0.set(Some((f2, slot2))));
+                            }
+                            (s0, e0, r)
+                        })
+                        .join();
+                        pending_exit = slot.lock().unwrap().take();
+                        match joined {
+                            Ok((s0, e0, r)) => {
+                                spawned_ticks = Some((s0, e0));
+                                r
+                            }
+                            Err(_) => "panic".to_string(),
+                        }
+                    }
+                    GCall::EmitExit(f) => {
+                        // not behind an `EmitSpawn`: a plain emission
+                        emit(f);
+                        take_seen()
+                    }
                 };
                 let end = tick();
+                let (start, end) = spawned_ticks.unwrap_or((start, end));
                 events.lock().unwrap()[t].push(Ev { start, end, result });
             }
         }));
@@ -818,7 +1055,17 @@ fn child(spec: &str) {
                     continue;
                 }
             };
-            if let GCall::Install(id) = c {
+            if let GCall::InstallLocal(l, _, _) = c {
+                if ev.result.split('&').nth(1) != Some(format!("local{}", l).as_str()) || ev.result.split('&').count() != 2 {
+                    fails.push((
+                        "an emission under a local recorder did not reach exactly that recorder".into(),
+                        format!("thread {} call {} (installation + emission inside with_local_recorder) answered {}", t, i, ev.result),
+                    ));
+                }
+            }
+            if let Some((id, inst)) = install_part(c, &ev.result) {
+                let id = &id;
+                let ev = &Ev { start: ev.start, end: ev.end, result: inst };
                 first_install_start = Some(first_install_start.map_or(ev.start, |x: usize| x.min(ev.start)));
                 if ev.result == "ok" {
                     oks += 1;
@@ -859,7 +1106,7 @@ fn child(spec: &str) {
     for (t, prog) in progs.iter().enumerate() {
         for (i, c) in prog.iter().enumerate() {
             if let (Some(_), Some(ev)) = (global_shape(c), events[t].get(i)) {
-                if ev.result.split('&').any(|p| p.starts_with("some")) {
+                if emission_part(c, &ev.result).split('&').any(|p| p.starts_with("some")) {
                     first_dispatch_end = Some(first_dispatch_end.map_or(ev.end, |x: usize| x.min(ev.end)));
                 }
             }
@@ -883,6 +1130,10 @@ fn child(spec: &str) {
                         GCall::EmitNested(k, f) => format!("{}, the recorder emits again from inside the call, {} deep", form_name(*f), k),
                         GCall::EmitIn(f) => format!("{} from inside a with_recorder closure", form_name(*f)),
                         GCall::EmitLocalPanic(_, f) => format!("{} under a local recorder that panics, caught outside the scope", form_name(*f)),
+                        GCall::InstallIn(id, f) => format!("with_recorder closure: emission, set_global_recorder({}), {}", id, form_name(*f)),
+                        GCall::EmitGuard(_, f) => format!("{} under set_default_local_recorder", form_name(*f)),
+                        GCall::EmitSpawn(f) => format!("{} on a thread spawned during the race", form_name(*f)),
+                        GCall::EmitExit(f) => format!("{} from a thread-local destructor of the spawned thread", form_name(*f)),
                         _ => String::new(),
                     },
                     ev.result,
@@ -894,7 +1145,19 @@ fn child(spec: &str) {
                 (_, Some((lookups, panics))) => {
                     // an emission (possibly with emissions from inside it) without a local recorder
                     let unwound = ev.result.ends_with('!');
-                    let parts: Vec<&str> = ev.result.trim_end_matches('!').split('&').collect();
+                    let epart = emission_part(c, &ev.result);
+                    let parts: Vec<&str> = epart.trim_end_matches('!').split('&').collect();
+                    if let GCall::InstallIn(id, _) = c {
+                        // the closure installed and then emitted: its own successful installation happens-before
+                        // the emission (same thread, same closure)
+                        let p3: Vec<&str> = ev.result.split('&').collect();
+                        if p3.len() != 3 || (p3[1] == "ok" && p3[2] != format!("some{}", id)) || (p3[0].starts_with("some") && p3[1] == "ok") {
+                            fails.push((
+                                "an emission made right after this thread's own installation (inside the same with_recorder closure) did not reach the installed recorder".into(),
+                                desc(),
+                            ));
+                        }
+                    }
                     let wtok = winner.map(|w| format!("some{}", w));
                     let n_to_winner = parts.iter().filter(|p| Some(**p) == wtok.as_deref()).count();
                     delivered += n_to_winner;
@@ -934,7 +1197,7 @@ fn child(spec: &str) {
                         }
                     }
                 }
-                (GCall::EmitLocal(l, _), _) => {
+                (GCall::EmitLocal(l, _), _) | (GCall::EmitGuard(l, _), _) => {
                     if ev.result != format!("local{}", l) {
                         fails.push(("an emission under a local recorder did not reach exactly that recorder".into(), desc()));
                     }
@@ -959,7 +1222,8 @@ fn child(spec: &str) {
                 None => break,
             };
             if let Some((lookups, panics)) = global_shape(c) {
-                let parts: Vec<&str> = ev.result.trim_end_matches('!').split('&').collect();
+                let epart = emission_part(c, &ev.result);
+                let parts: Vec<&str> = epart.trim_end_matches('!').split('&').collect();
                 let all_some = parts.iter().all(|p| p.starts_with("some"));
                 if let Some(j) = reached {
                     if !(all_some && parts.len() == lookups && ev.result.ends_with('!') == panics) {
@@ -981,6 +1245,10 @@ fn child(spec: &str) {
                 if reached.is_none() && parts.iter().any(|p| p.starts_with("some")) {
                     reached = Some(i);
                 }
+            }
+            // round 7: the thread's OWN successful installation counts too (installing threads included)
+            if reached.is_none() && install_part(c, &ev.result).map_or(false, |(_, r)| r == "ok") {
+                reached = Some(i);
             }
         }
     }
@@ -1011,6 +1279,26 @@ fn child(spec: &str) {
         }
     }
 
+    {
+        let live = crate::alloc::live();
+        let expected: isize = match winner {
+            Some(w) if kind_of(w, salt) != 2 => 1, // the leaked slot of the installed recorder (a ZST needs none)
+            _ => 0,
+        };
+        if live != expected {
+            fails.push((
+                "set_global_recorder left heap allocations behind that are not the installed recorder's slot (a slot leaked for a rejected recorder), or freed the slot".into(),
+                format!("live allocations made inside set_global_recorder: {} expected {}; programs {}", live, expected, gprogs_tok(&progs, false)),
+            ));
+        }
+        for f in crate::alloc::take_faults() {
+            fails.push(("allocator fault during install/emit".into(), f));
+        }
+        crate::alloc::stop();
+    }
+    for w in WRONG_METHOD.lock().unwrap().drain(..) {
+        fails.push(("an emission entered the recorder through another trait method than the one the API form calls".into(), w));
+    }
     let labels: Vec<&str> = run.trace.iter().map(|(_, id)| *id).filter(|id| *id != API_POINT).collect();
     let mtaken: Vec<usize> = run.trace.iter().filter(|(_, id)| *id != API_POINT).map(|(t, _)| *t).collect();
     let res = list(events.iter().map(|evs| {
@@ -1137,7 +1425,9 @@ fn one_global(cfg: &Cfg, out: &mut Out, progs: &[Vec<GCall>], schedule: &[usize]
 }
 
 fn gen_gprogs(r: &mut Rng) -> Vec<Vec<GCall>> {
-    let n = r.range(2, 4);
+    // round 7: one case in four has 5 or 6 threads (three installers around the INITIALIZING window AND emitters on
+    // two or more other threads need five)
+    let n = if r.chance(1, 4) { r.range(5, 6) } else { r.range(2, 4) };
     let mut next_id = 1;
     let mut progs = vec![];
     let installer = r.below(n);
@@ -1150,16 +1440,34 @@ fn gen_gprogs(r: &mut Rng) -> Vec<Vec<GCall>> {
                 p.push(GCall::Install(next_id));
                 next_id += 1;
             } else if r.chance(1, 6) {
-                p.push(GCall::EmitLocal(20 + r.below(4), r.below(NFORMS)));
+                let (l, f) = (20 + r.below(4), r.below(NFORMS));
+                p.push(match r.below(4) {
+                    0 => {
+                        next_id += 1;
+                        GCall::InstallLocal(l, next_id - 1, f)
+                    }
+                    1 => GCall::EmitGuard(l, f),
+                    _ => GCall::EmitLocal(l, f),
+                });
             } else {
                 let f = r.below(NFORMS);
-                p.push(match r.below(10) {
-                    0 => GCall::EmitPanic(f),
-                    1 => GCall::EmitNested(r.range(1, 2), f),
-                    2 => GCall::EmitIn(f),
-                    3 if r.chance(1, 2) => GCall::EmitLocalPanic(20 + r.below(4), f),
-                    _ => GCall::Emit(f),
-                });
+                match r.below(14) {
+                    0 => p.push(GCall::EmitPanic(f)),
+                    1 => p.push(GCall::EmitNested(r.range(1, 2), f)),
+                    2 => p.push(GCall::EmitIn(f)),
+                    3 if r.chance(1, 2) => p.push(GCall::EmitLocalPanic(20 + r.below(4), f)),
+                    10 => {
+                        p.push(GCall::InstallIn(next_id, f));
+                        next_id += 1;
+                    }
+                    11 | 12 => {
+                        p.push(GCall::EmitSpawn(f));
+                        if r.chance(2, 3) {
+                            p.push(GCall::EmitExit(r.below(NFORMS)));
+                        }
+                    }
+                    _ => p.push(GCall::Emit(f)),
+                }
             }
         }
         progs.push(p);
@@ -1269,6 +1577,28 @@ pub fn run(cfg: &Cfg, out: &mut Out) {
               vec![GCall::Install(4), GCall::EmitNested(2, 0), GCall::Emit(5)]],
          vec![0, 0, 1, 1, 0, 1, 2, 2, 1, 0, 0, 0, 2, 2, 2, 1, 1, 1, 0, 0, 2, 2, 2, 2, 2, 2, 1, 1, 1, 0, 0, 0, 0]),
     ];
+    // round 7: five threads (three installers around the window, emitters on two more threads); installations from
+    // inside a with_recorder closure and inside a local scope; the guard API; a thread spawned during the race that
+    // also emits from a thread-local destructor
+    let gcorpus3: Vec<(Vec<Vec<GCall>>, Vec<usize>)> = vec![
+        (vec![vec![GCall::Install(1)], vec![GCall::Install(2)], vec![GCall::Install(3)],
+              vec![GCall::Emit(1), GCall::Emit(2)], vec![GCall::Emit(3), GCall::Emit(0)]],
+         vec![0, 0, 0, 1, 1, 1, 2, 2, 3, 3, 3, 3, 0, 2, 4, 4, 4, 3, 0, 4, 4, 4, 3, 3]),
+        (vec![vec![GCall::InstallIn(1, 1), GCall::Emit(2)], vec![GCall::InstallLocal(21, 2, 3), GCall::Emit(0)], vec![GCall::Emit(4), GCall::EmitGuard(22, 5), GCall::Emit(1)]],
+         vec![0, 1, 2, 0, 0, 2, 2, 0, 1, 1, 0, 0, 2, 2, 0, 0, 0, 1, 1, 2, 2, 2]),
+        (vec![vec![GCall::InstallLocal(21, 2, 3), GCall::InstallIn(1, 1)], vec![GCall::InstallIn(3, 0), GCall::Emit(0)]],
+         vec![1, 1, 1, 0, 0, 0, 0, 1, 1, 0, 1, 1, 1, 0, 0, 0]),
+        (vec![vec![GCall::Emit(1), GCall::EmitSpawn(2), GCall::EmitExit(3), GCall::Emit(4)], vec![GCall::Install(1), GCall::EmitSpawn(0), GCall::EmitExit(1)]],
+         vec![0, 0, 0, 0, 0, 1, 1, 1, 0, 1, 0, 1, 0, 0, 0, 1, 1, 1, 1, 1]),
+        (vec![vec![GCall::EmitSpawn(5), GCall::EmitExit(2)], vec![GCall::Install(4)]],
+         vec![0, 0, 0, 1, 1, 1, 0, 0, 1, 1, 0, 0]),
+    ];
+    for (ci, (progs, sch)) in gcorpus3.into_iter().enumerate() {
+        for salt in [0usize, 1, 4] {
+            out.case(&format!("global round-7 corpus {} salt {}", ci, salt));
+            one_global(cfg, out, &progs, &sch, salt);
+        }
+    }
     for (ci, (progs, sch)) in gcorpus2.into_iter().enumerate() {
         for salt in [0usize, 3] {
             out.case(&format!("global fault corpus {} salt {}", ci, salt));
@@ -1279,7 +1609,7 @@ pub fn run(cfg: &Cfg, out: &mut Out) {
         let mut r = root.fork(i as u64);
         out.case(&format!("seed={} i={}", cfg.seed, i));
         let progs = gen_progs(&mut r);
-        let sch = bursty(&mut r, progs.len(), 40);
+        let sch = bursty(&mut r, progs.len(), if progs.len() > 4 { 70 } else { 40 });
         let salt = r.below(NKINDS * 3);
         out.count(&format!("threads={}", progs.len()));
         one(out, &progs, &sch, salt);
@@ -1290,7 +1620,7 @@ pub fn run(cfg: &Cfg, out: &mut Out) {
         let mut r = root.fork(1_000_000 + i as u64);
         out.case(&format!("global seed={} i={}", cfg.seed, i));
         let progs = gen_gprogs(&mut r);
-        let sch = bursty(&mut r, progs.len(), 72);
+        let sch = bursty(&mut r, progs.len(), if progs.len() > 4 { 130 } else { 72 });
         let salt = r.below(NKINDS * 3);
         out.count(&format!("global.threads={}", progs.len()));
         for p in &progs {
@@ -1303,6 +1633,11 @@ pub fn run(cfg: &Cfg, out: &mut Out) {
                     GCall::EmitNested(k, _) => out.count(&format!("global.emit.recorder-emits.depth{}", k)),
                     GCall::EmitIn(_) => out.count("global.emit.from-inside-closure"),
                     GCall::EmitLocalPanic(_, _) => out.count("global.emit.under-local.recorder-panics"),
+                    GCall::InstallIn(id, _) => out.count(&format!("global.install-from-inside-closure.{}", kind_name(kind_of(*id, salt)))),
+                    GCall::InstallLocal(_, id, _) => out.count(&format!("global.install-under-local.{}", kind_name(kind_of(*id, salt)))),
+                    GCall::EmitGuard(_, _) => out.count("global.emit.under-local-guard"),
+                    GCall::EmitSpawn(_) => out.count("global.emit.thread-spawned-during-race"),
+                    GCall::EmitExit(_) => out.count("global.emit.tls-destructor"),
                 }
             }
         }
@@ -1372,6 +1707,9 @@ pub fn run(cfg: &Cfg, out: &mut Out) {
             vec![vec![GCall::Emit(1), GCall::EmitLocal(20, 1), GCall::Emit(1)], vec![GCall::Install(1)], vec![GCall::Install(2)]],
             vec![vec![GCall::Emit(1), GCall::EmitPanic(1), GCall::Emit(0)], vec![GCall::Install(1)]],
             vec![vec![GCall::EmitNested(1, 1), GCall::EmitIn(2)], vec![GCall::Install(1)]],
+            vec![vec![GCall::InstallIn(1, 1), GCall::Emit(0)], vec![GCall::Emit(2)]],
+            vec![vec![GCall::EmitSpawn(1), GCall::EmitExit(2)], vec![GCall::Install(1)]],
+            vec![vec![GCall::InstallLocal(20, 1, 1), GCall::Emit(0)], vec![GCall::InstallIn(2, 3)]],
         ];
         for (ci, progs) in gconfigs.into_iter().enumerate() {
             out.case(&format!("global exhaustive {}", gprogs_tok(&progs, true)));
